@@ -271,7 +271,7 @@ enum_item
         }
     | pos docstring IDENTIFIER '=' INTCONSTANT type_annotations
         {
-            value := int($5)
+            value := checkedInt(yylex, $5)
             $$ = &ast.EnumItem{
                 Name: $3,
                 Value: &value,
@@ -321,7 +321,7 @@ field
     ;
 
 field_identifier
-    : INTCONSTANT ':' { $$ = fieldIdentifier{ID: int($1)} }
+    : INTCONSTANT ':' { $$ = fieldIdentifier{ID: checkedInt(yylex, $1)} }
     | /* na */        { $$ = fieldIdentifier{Unset: true} }
     ;
 
